@@ -19,6 +19,17 @@ CHECKS = {
              '(C01) nor exactness of the conflict *set* beyond per-cell bookkeeping. Trusted: ' + TB,
         technique='MIR path-table extraction (custom rustc_private driver) + finite-model comparison with the specification table',
         ref='§4 C03'),
+    'C16': dict(
+        level='proof',
+        text='The four derived views of the state table (tokens with actions, shift tokens, core reductions, reduce-only '
+             'flag) are shown to be functions of the FINAL action cells: every bit-set happens after the last program '
+             'point that can write a cell and under a decode of that cell; the per-variant contribution table, the '
+             'encode/decode tag tables and goto\'s +1 encoding are enumerated exhaustively; shift/goto targets are '
+             'shown to come from the graph edge of the same symbol; gc dominates graph construction.',
+        note='Does NOT decide that each closed state is the LR(1) closure of its core (C01). Trusted: Vob::set / '
+             'SparseVec::from,get semantics; ' + TB,
+        technique='MIR CFG reachability/dominance (write-after-view ordering) + exhaustive path-table extraction for encode/decode and the per-cell view table',
+        ref='§4 C16'),
 }
 
 NA = {
